@@ -123,6 +123,47 @@ def origins(draw, allow_none: bool, none_weight: int = 1):
     return draw(point3_nz(10))
 
 
+PRE = ["all", "get_point", "discretize", "length", "closest", "all", "none"]  # evaluations before a transformation
+
+
+def touch_curve(curve, pre: str) -> None:
+    """evaluates a curve (fills whatever the library caches for evaluation) the way a caller may have done already"""
+    lo, hi = curve.bounds
+    if pre in ("get_point", "all"):
+        curve.get_point(lo)
+    if pre in ("discretize", "all"):
+        curve.discretize()
+    if pre in ("length", "all"):
+        _ = curve.length
+    if pre in ("closest", "all"):
+        curve.get_closest_param(curve.get_point(hi))
+
+
+def touch_curves(ent, pre: str) -> int:
+    """touch_curve for every curve found by walking .parts (OnCurve, Spline, PolyLine edge data hold one)"""
+    from classy_blocks.construct.curves.curve import CurveBase
+    from classy_blocks.construct.point import Point
+
+    if pre == "none":
+        return 0
+    seen, found = set(), []
+
+    def walk(e):
+        if id(e) in seen or isinstance(e, Point):
+            return
+        seen.add(id(e))
+        if isinstance(e, CurveBase):
+            found.append(e)
+            return
+        for part in e.parts:
+            walk(part)
+
+    walk(ent)
+    for curve in found:
+        touch_curve(curve, pre)
+    return len(found)
+
+
 def own_points(ent) -> list:
     """The stored points of an entity as the library hands them out: Point.position of every point and the rows of
     every point array (what curve.get_point(i) / curve.array[i] of a DiscreteCurve, Spline or PolyLine return:
